@@ -25,6 +25,10 @@ SCRIPTS = {
     # was built: every byte of the first datagram, padding included, counts against the 3x budget
     "server_half_rtt": {"c": [W(0, 10)], "s": [W(1, 9000, True, g="now")]},
     "zr_server_half_rtt": {"c": [W(0, 10, g="pre")], "s": [W(1, 9000, True, g="now")]},
+    # the server has a long response queued (window-limited over several round trips) while the client only sends
+    # small packets: whatever address those come from has a small 3x budget until it is validated
+    "download_chatty": {"c": [W(0, 100)] + [W(0, 60, g=("rx", 1, 4000 * i)) for i in range(1, 8)],
+                        "s": [W(1, 40000, True, g=("rx", 0, 1))]},
     "server_close_early": {"c": [W(0, 10)], "s": [{"op": "close", "code": 0, "reason": "bye", "g": "now"}]},
     # resumption with early data: the first client datagram coalesces Initial + 0-RTT
     "zr_early_request": {"c": [W(0, 300, True, g="now")], "s": [W(0, 9000, True, g=("rx", 0, 1))]},
@@ -51,7 +55,7 @@ def factory(sc):
     if sc.get("resume"):
         base = {k: v for k, v in cfg.items() if k in ("version", "chain", "c_mds", "s_mds")}
         cfg["tickets"] = netsim.obtain_tickets(base)
-    kw = {"max_steps": 300, "horizon": 60.0,
+    kw = {"max_steps": sc.get("max_steps", 300), "horizon": 60.0,
           "deviations": tuple(sc.get("dev", ("drop", "dup", "delay", "rebind", "late", "spoof")))}
     return cfg, SCRIPTS[sc["script"]], [SizeMonitor()], kw, goal
 
@@ -124,6 +128,12 @@ def run(ctx):
         k = keys[ctx.seed % len(keys)]
         pick = {k + "|d2": dict(sc[k], dev=("drop", "delay", "rebind", "spoof"))}
         netcheck.explore_scenarios(ctx, "c13", pick, 2, "d2", sig_extra=sig_extra)
+    # two address changes straddling one path validation: the PATH_RESPONSE for the second address may arrive
+    # from a third one, which is then the active path and has NOT been validated
+    mig = {"migrate_twice|ed": {"script": "migrate_then_bulk", "cfg": {"chain": "ed25519"}, "dev": ("rebind",)},
+           "download_migrate_twice|ed": {"script": "download_chatty", "cfg": {"chain": "ed25519"}, "dev": ("rebind",),
+                                         "max_steps": 600}}
+    netcheck.explore_scenarios(ctx, "c13", mig, 2, "two_rebindings_d2", sig_extra=sig_extra)
     if len(agg["outcomes"]) < 3:
         raise core.HarnessError("vacuous exploration")
     ctx.cov["rule"] = (
